@@ -109,7 +109,7 @@ fn s(x: &str) -> String {
 
 pub fn header_lists(request: bool, max: usize) -> Vec<Vec<(String, String)>> {
     let names: Vec<&str> = if request { vec!["Host", "host", "HOST", "User-Agent", "Accept", "Accept-Language", "Accept-Encoding", "Cookie", "Referer", "Cache-Control", "Connection", "X-A", "Via", "Keep-Alive"] } else { vec!["Server", "server", "Content-Type", "Date", "Set-Cookie", "Content-Length", "Connection", "X-A", "ETag", "Accept-Ranges", "Vary", "Keep-Alive"] };
-    let values = ["v", " v ", "a:b", "\u{fc}ber", "", "a, b;q=0.5", "x=1; y=2", "k=[v]", "en-US,en;q=0.9"];
+    let values = ["v", " v ", "a:b", "\u{fc}ber", "", "a, b;q=0.5", "x=1; y=2", "k=[v]", "en-US,en;q=0.9", "sid=YWJjZA==; prefs=lang=en; bare; =v; e="];
     let hdrs: Vec<(String, String)> = names.iter().flat_map(|n| values.iter().map(move |v| (s(n), s(v)))).collect();
     let mut out: Vec<Vec<(String, String)>> = vec![vec![]];
     let mut cur: Vec<Vec<(String, String)>> = vec![vec![]];
